@@ -17,8 +17,8 @@ record what that key did — they are statements about `SaveKey.caller`, no long
 * `second_attempt_keeps_stake`: once the provider record is flagged, no kill / shut-down by anybody changes any
   delegate balance or dead flag again;
 * `no_more_rewards`, `kill_then_no_rewards`, `shutdown_then_no_rewards` (`oldKey_shutdown_still_rewarded_witness`);
-* `kill_unauthorised_noop`, `shutdown_unauthorised_noop_partial`, `shutdown_unauthorised_changes_witness` (STILL a
-  defect of the code: the already-shut-down branch runs before authorisation), `unauthorised_can_panic_witness`;
+* `kill_unauthorised_noop`, `shutdown_unauthorised_noop` (full strength since repo commit 40a4a9f: `ShutDown` authorises
+  first), `storage_call_on_miner_id_noop` (since e59baf9 such a call decodes the record and fails instead of panicking);
 * `kill_frame`, `shutdown_frame`, `shutdownK_frame` (`oldKey_shutdown_creates_node_witness`).
 -/
 namespace ZChain.Provider
@@ -55,9 +55,8 @@ theorem finish_disabled (st : State) (k : Kind) (pid : Id) (p' : Prov) (sp' : SP
 theorem exec_ok (s s' : State) (c : Id) :
     exec s c (noTransfers (.ok s')) = ({ s' with accts := bumpNonce s.accts c }, .ok) := rfl
 
-theorem exec_err (s : State) (c : Id) (e : Err) (he : e ≠ .panicNotCopyable) :
-    exec s c (noTransfers (.error e)) = ({ s with accts := bumpNonce s.accts c }, .fail e) := by
-  cases e <;> first | rfl | exact absurd rfl he
+theorem exec_err (s : State) (c : Id) (e : Err) :
+    exec s c (noTransfers (.error e)) = ({ s with accts := bumpNonce s.accts c }, .fail e) := rfl
 
 theorem loadBlobber_of {s : State} {r : Req} {p : Prov} {sp : SP} (hp : kvGet s.provs r.reqId = some p)
     (hk : p.kind = .blobber) (hsp : kvGet s.sps (.blobber, r.reqId) = some sp) :
@@ -110,10 +109,9 @@ theorem shutdownBlobberK_disable_effect (key : SaveKey) (cfg : Cfg) (s : State) 
     ∃ s', shutdownBlobberK key cfg s r = .ok s' ∧ Disabled s' .blobber r.reqId { p with shutDown := true } sp' true := by
   refine ⟨finishStorage (putSP s .blobber r.reqId sp') r.reqId { p with shutDown := true } sp' true, ?_,
     finish_disabled s .blobber r.reqId _ sp' true hk⟩
-  have hw : sp'.wallet = sp.wallet := (spKill_spec hkill).2.2.1
   unfold shutdownBlobberK provShutDown
   rw [loadBlobber_of hp hk hsp]
-  simp only [hl1, hl2, Bool.or_self, Bool.false_eq_true, ↓reduceIte, hkill, hw, hauth, hk]
+  simp only [hauth, not_true_eq_false, hl1, hl2, Bool.or_self, Bool.false_eq_true, ↓reduceIte, hkill, hk]
   rw [hown]
 
 theorem killValidatorK_disable_effect (key : SaveKey) (cfg : Cfg) (s : State) (r : Req) (p : Prov) (sp sp' : SP)
@@ -139,10 +137,9 @@ theorem shutdownValidatorK_disable_effect (key : SaveKey) (cfg : Cfg) (s : State
       Disabled s' .validator r.reqId { p with shutDown := true } sp' false := by
   refine ⟨finishStorage (putSP (afterVLoad cfg s r) .validator r.reqId sp') r.reqId { p with shutDown := true } sp' false, ?_,
     finish_disabled _ .validator r.reqId _ sp' false hk⟩
-  have hw : sp'.wallet = sp.wallet := (spKill_spec hkill).2.2.1
   unfold shutdownValidatorK provShutDown
   rw [loadValidator_of hp hk hsp]
-  simp only [hl1, hl2, Bool.or_self, Bool.false_eq_true, ↓reduceIte, hkill, hw, hauth, hk, ne_eq, not_true_eq_false]
+  simp only [hauth, hl1, hl2, Bool.or_self, Bool.false_eq_true, ↓reduceIte, hkill, hk, ne_eq, not_true_eq_false]
   rw [hown]
 
 /-- what the killed pool looks like: dead, and **every delegate balance is `trunc(balance · (1 − slash))`** (`MultFloat64`
@@ -334,15 +331,12 @@ theorem txn_state_cases (s : State) (c : Id) (res : Except Err State) :
   cases res with
   | ok s' => exact Or.inl ⟨s', rfl, rfl⟩
   | error e =>
-    refine Or.inr ⟨e, rfl, ?_⟩
-    by_cases he : e = .panicNotCopyable
-    · subst he; exact Or.inl rfl
-    · rw [exec_err s c e he]; exact Or.inr rfl
+    exact Or.inr ⟨e, rfl, Or.inr (exec_err s c e ▸ rfl)⟩
 
 /-- **second_attempt_noop** ("slashed exactly once"): once the provider record of a blobber / validator carries a flag,
 a further `kill_*` or `shutdown_*` — by ANY caller — changes no delegate pool, no dead flag and no provider reward of
-any stake pool, and no provider record. (What a repeated blobber call may still do is reset `TotalOffers`: see
-`shutdown_unauthorised_changes_witness`.) -/
+any stake pool, and no provider record. (What a repeated blobber call by an AUTHORISED caller still does is reset `TotalOffers`, the refresh the
+storage contract wants.) -/
 theorem second_attempt_keeps_stake (cfg : Cfg) (s : State) (r : Req) (k : Kind) (p : Prov)
     (hk : k = .blobber ∨ k = .validator)
     (hp : kvGet s.provs r.reqId = some p) (hf : p.killed = true ∨ p.shutDown = true) :
@@ -564,9 +558,7 @@ def OnlyNonce (s s' : State) (c : Id) : Prop := s' = s ∨ s' = { s with accts :
 theorem onlyNonce_of_error {s : State} {c : Id} {res : Except Err State} (h : ∃ e, res = .error e) :
     OnlyNonce s (exec s c (noTransfers res)).1 c := by
   obtain ⟨e, rfl⟩ := h
-  by_cases he : e = .panicNotCopyable
-  · subst he; exact Or.inl rfl
-  · rw [exec_err s c e he]; exact Or.inr rfl
+  exact Or.inr (exec_err s c e ▸ rfl)
 
 /-- **unauthorised_noop (kill)**: a `kill_*` sent by anybody but the contract owner changes nothing (the failed
 transaction only consumes the caller's nonce) — for every provider kind, whatever `provider_id` names. -/
@@ -592,12 +584,12 @@ theorem kill_unauthorised_noop (cfg : Cfg) (k : Kind) (s : State) (r : Req) (h :
     exact ⟨.unauthorized, by show killMinerNode .sharder cfg s r = _; unfold killMinerNode; simp [h]⟩
   | authorizer => exact Or.inr rfl
 
-/-- **unauthorised_noop (shut-down) — partial.** Full statement: a `shutdown_*` by a caller who is neither the owner nor
-the delegate wallet changes nothing. Proved for every kind EXCEPT a blobber that is already shut down or killed
-(hypothesis `hlive`); that case is false of the code: `shutdown_unauthorised_changes_witness`. -/
-theorem shutdown_unauthorised_noop_partial (cfg : Cfg) (k : Kind) (s : State) (r : Req) (h : cfg.owner ≠ r.caller)
-    (hw : ∀ p sp, kvGet s.provs r.reqId = some p → getSP s p.kind r.reqId = some sp → sp.wallet ≠ some r.caller)
-    (hlive : k = .blobber → ∀ p, kvGet s.provs r.reqId = some p → p.killed = false ∧ p.shutDown = false) :
+/-- **unauthorised_noop (shut-down)** — full strength (since repo commit 40a4a9f `ShutDown` authorises before anything
+else): a `shutdown_*` by a caller who is neither the contract owner nor the delegate wallet of the pool the call loads
+changes nothing, for every kind and whatever state the provider is in — in particular an already shut-down or killed
+blobber (the case that used to run the refresh: `oldOrder` note below). -/
+theorem shutdown_unauthorised_noop (cfg : Cfg) (k : Kind) (s : State) (r : Req) (h : cfg.owner ≠ r.caller)
+    (hw : ∀ p sp, kvGet s.provs r.reqId = some p → getSP s p.kind r.reqId = some sp → sp.wallet ≠ some r.caller) :
     OnlyNonce s (shutdownTxn cfg k s r).1 r.caller := by
   unfold shutdownTxn
   cases k with
@@ -607,25 +599,16 @@ theorem shutdown_unauthorised_noop_partial (cfg : Cfg) (k : Kind) (s : State) (r
       (slash := halfSlash cfg) (key := shutDownSaveKey) (s := s) h (by
         intro L hl
         obtain ⟨_, _, hp, hk, hs⟩ := loadBlobber_ok hl
-        have := hw L.p L.sp hp (by rw [hk, getSP_eq]; exact hs)
-        exact ⟨this, hlive rfl L.p hp⟩)
+        exact hw L.p L.sp hp (by rw [hk, getSP_eq]; exact hs))
     exact ⟨e, by show shutdownBlobberK shutDownSaveKey cfg s r = _; unfold shutdownBlobberK; rw [he]⟩
   | validator =>
     apply onlyNonce_of_error
-    show ∃ e, shutdownValidatorK shutDownSaveKey cfg s r = .error e
-    unfold shutdownValidatorK
-    cases hr : provShutDown (loadValidator cfg) (some refreshBlobberOffers) cfg.owner (halfSlash cfg) shutDownSaveKey s r with
-    | err e => exact ⟨e, rfl⟩
-    | already st => exact ⟨.already, rfl⟩
-    | done st pid p sp =>
-      exfalso
-      obtain ⟨L, hl, hau, _, _, hk, _⟩ := provShutDown_done hr
-      obtain ⟨_, hp, _, _, _, _, _, hs⟩ := loadValidator_ok hl
-      have hne := hw L.p L.sp hp hs
-      rw [(spKill_spec hk).2.2.1] at hau
-      rcases hau with ha | ha
-      · exact h ha
-      · exact hne ha
+    obtain ⟨e, he⟩ := provShutDown_unauth (load := loadValidator cfg) (refresh := some refreshBlobberOffers)
+      (slash := halfSlash cfg) (key := shutDownSaveKey) (s := s) h (by
+        intro L hl
+        obtain ⟨_, hp, _, _, _, _, _, hs⟩ := loadValidator_ok hl
+        exact hw L.p L.sp hp hs)
+    exact ⟨e, by show shutdownValidatorK shutDownSaveKey cfg s r = _; unfold shutdownValidatorK; rw [he]⟩
   | miner => exact Or.inr rfl
   | sharder => exact Or.inr rfl
   | authorizer => exact Or.inr rfl
@@ -635,20 +618,57 @@ def sShut : State :=
   { s0 with provs := [(30, ⟨.blobber, true, false, false⟩)],
             sps := [((.blobber, 30), { sp0 with offers := 1000000000 })] }
 
-/-- **unauthorised_noop is false of `shutdown_blobber` as coded**: stranger 45 (not the owner 3, not the wallet 50)
-"shuts down" the already shut-down blobber 30 — the call SUCCEEDS and `TotalOffers` drops to 0. -/
-theorem shutdown_unauthorised_changes_witness :
+/-- non-vacuity of `shutdown_unauthorised_noop` on the input that used to break it (before 40a4a9f stranger 45's call on
+the already shut-down blobber 30 SUCCEEDED and reset `TotalOffers` to 0): it now fails "unauthorized" and the offers
+stay; the owner's repeated call still performs the refresh. -/
+example :
     cfg0.owner ≠ 45 ∧ sp0.wallet ≠ some 45 ∧
-    (shutdownTxn cfg0 .blobber sShut ⟨45, 30⟩).2 = .ok ∧
-    kvGet sShut.sps (.blobber, 30) = some { sp0 with offers := 1000000000 } ∧
-    kvGet (shutdownTxn cfg0 .blobber sShut ⟨45, 30⟩).1.sps (.blobber, 30) = some { sp0 with offers := 0 } := by
+    (shutdownTxn cfg0 .blobber sShut ⟨45, 30⟩).2 = .fail .unauthorized ∧
+    kvGet (shutdownTxn cfg0 .blobber sShut ⟨45, 30⟩).1.sps (.blobber, 30) = some { sp0 with offers := 1000000000 } ∧
+    (shutdownTxn cfg0 .blobber sShut ⟨3, 30⟩).2 = .ok ∧
+    kvGet (shutdownTxn cfg0 .blobber sShut ⟨3, 30⟩).1.sps (.blobber, 30) = some { sp0 with offers := 0 } := by
   decide +kernel
 
-/-- a stranger's storage-contract kill / shut-down that names a MINER's id panics inside the contract goroutine
-(the model's `Status.panic`; the harness observes the process crash): "change nothing" holds of the state, but the
-node dies. -/
-theorem unauthorised_can_panic_witness :
-    (killTxn cfg0 .validator s0 ⟨45, 10⟩).2 = .panic ∧ (shutdownTxn cfg0 .blobber s0 ⟨45, 10⟩).2 = .panic := by
+/-- **a storage-contract kill / shut-down that names a MINER's or SHARDER's id changes nothing, whoever sends it** (since
+repo commit e59baf9 the record is decoded instead of panicking on the cached `MinerNode`; the call used to kill the node
+process): the blobber entry points answer "provider is miner should be blobber", the validator entry points find no
+stake pool for the empty provider they decode; only the caller's nonce moves. -/
+theorem storage_call_on_miner_id_noop (cfg : Cfg) (k : Kind) (s : State) (r : Req) (p : Prov)
+    (hk : k = .blobber ∨ k = .validator) (hp : kvGet s.provs r.reqId = some p)
+    (hm : p.kind = .miner ∨ p.kind = .sharder) :
+    killTxn cfg k s r = ({ s with accts := bumpNonce s.accts r.caller },
+      .fail (if k = .blobber then .wrongKind else .notFound)) ∧
+    shutdownTxn cfg k s r = ({ s with accts := bumpNonce s.accts r.caller },
+      .fail (if k = .blobber then .wrongKind else .notFound)) := by
+  have hnb : p.kind ≠ .blobber := by rcases hm with h | h <;> rw [h] <;> decide
+  have hlb : loadBlobber s r = .error .wrongKind := by
+    unfold loadBlobber; simp [hp, hnb]
+  have hlv : loadValidator cfg s r = .error .notFound := by
+    unfold loadValidator; simp [hp, hm]
+  rcases hk with rfl | rfl
+  · have h1 : kill cfg .blobber s r = .error .wrongKind := by
+      show killBlobberK killSaveKey cfg s r = _
+      unfold killBlobberK provKill; rw [hlb]
+    have h2 : shutdown cfg .blobber s r = .error .wrongKind := by
+      show shutdownBlobberK shutDownSaveKey cfg s r = _
+      unfold shutdownBlobberK provShutDown; rw [hlb]
+    unfold killTxn shutdownTxn
+    rw [h1, h2, exec_err]
+    exact ⟨rfl, rfl⟩
+  · have h1 : kill cfg .validator s r = .error .notFound := by
+      show killValidatorK killSaveKey cfg s r = _
+      unfold killValidatorK provKill; rw [hlv]
+    have h2 : shutdown cfg .validator s r = .error .notFound := by
+      show shutdownValidatorK shutDownSaveKey cfg s r = _
+      unfold shutdownValidatorK provShutDown; rw [hlv]
+    unfold killTxn shutdownTxn
+    rw [h1, h2, exec_err]
+    exact ⟨rfl, rfl⟩
+
+/-- non-vacuity: miner 10 of `s0`, stranger 45 and owner 3. -/
+example : (killTxn cfg0 .validator s0 ⟨45, 10⟩).2 = .fail .notFound ∧
+    (shutdownTxn cfg0 .blobber s0 ⟨3, 10⟩).2 = .fail .wrongKind ∧
+    kvGet (shutdownTxn cfg0 .blobber s0 ⟨3, 10⟩).1.sps (.miner, 10) = kvGet s0.sps (.miner, 10) := by
   decide +kernel
 
 /-! ## frame -/
